@@ -3,6 +3,7 @@ their extracted Coq models, against the reference oracle and against each other;
 (and the CLI route) end to end on generated content trees."""
 import os
 import random
+import shutil
 import contextlib
 from concurrent.futures import ThreadPoolExecutor
 
@@ -749,14 +750,14 @@ def build_case(tmp, salt, i, kinds, cli_versions):
     root2 = os.path.join(tmp, f"c{i}", "changed", name)
     metas2 = {}
     for kind in kinds:
-        write_case(root2, tree, empty_dirs)
-        if new != tree:
-            trees.rewrite_tree(root2, new, tree)       # back to the state at construction for the next creator
+        shutil.rmtree(os.path.dirname(root2), ignore_errors=True)
+        write_case(root2, tree, empty_dirs)                     # the state at construction
         out = os.path.join(tmp, f"c{i}", "changed", kind)
         _create(metas2, kind + CHANGED, lambda: trees.create(kind, root2, out + "-again.torrent", pl,
                                                              reassemble=lambda: trees.rewrite_tree(root2, tree, new), **opts))
-        if isinstance(metas2[kind + CHANGED], BaseException):
-            trees.rewrite_tree(root2, tree, new)
+        if isinstance(metas2[kind + CHANGED], BaseException):   # wherever it stopped: the judged state is `new`
+            shutil.rmtree(os.path.dirname(root2), ignore_errors=True)
+            write_case(root2, new, empty_dirs)
         _create(metas2, kind, lambda: trees.create(kind, root2, out + ".torrent", pl, **opts))
     disk2 = oracle.walk_tree(root2)
     case["changed"] = dict(case, tree=new, root=root2, metas=metas2, disk=disk2, changed=None, change=how, tree_at_construction=tree,
@@ -1033,11 +1034,15 @@ def _replay_e2e(tag, prop, inp):
     with core.Scratch("vreplay_") as tmp:
         os.environ["HOME"] = tmp
         case = build_case(tmp, inp["salt"], inp["index"], kinds, cli)
-        summary = trees.tree_summary(case["tree"])
+        shown = case["changed"] if inp.get("reassemble") == "changed" and case.get("changed") else case
+        summary = trees.tree_summary(shown["tree"])
         if summary != inp.get("tree") or case["pl"] != inp.get("piece_length") or case["opts"] != inp.get("options"):
             return c01.cannot("e2e", f"the generator no longer yields the recorded tree: {summary} vs {inp.get('tree')}")
-        print(f"{tag} tree {summary}, empty directories {inp.get('empty_dirs')}, piece length {case['pl']}, options {case['opts']}; "
-              f"creators {list(case['metas'])}")
+        print(f"{tag} tree {trees.tree_summary(case['tree'])}, empty directories {inp.get('empty_dirs')}, piece length {case['pl']}, "
+              f"options {case['opts']}; creators {list(case['metas'])}")
+        if case.get("changed"):
+            print(f"{tag} a copy of it changed between construction and the second assemble() ({case['changed']['change']}) to "
+                  f"{trees.tree_summary(case['changed']['tree'])}; creators {list(case['changed']['metas'])}")
         reports = judge_e2e(prop, case)
     for kind, i2, exp, obs in reports:
         print(f"{tag} VIOLATION {kind} ({i2['creator']}): {obs}")
@@ -1144,15 +1149,23 @@ def replay_case(ctx, data, prop):
     return c01.verdict(tag, rcs)
 
 
-C10_PAIRS = [("v2-asm", "v2-class"), ("hybrid-asm", "hybrid-class"),
-             ("cli --meta-version 2", "v2-class"), ("cli --meta-version 3", "hybrid-class")]
+def flavour(label):
+    """'hybrid' | 'v2': which class-based creator a metafile of this label has to agree with (C10)"""
+    b = base_kind(label)
+    return "hybrid" if b.startswith("hybrid") or b.endswith("version 3") else "v2"
 
 
 # ------------------------------------------------------------------------------ end-to-end driver
 E2E_KINDS = {"C02": ("v2-class", "v2-asm", "hybrid-class", "hybrid-asm"),
              "C03": ("hybrid-class", "hybrid-asm"),
              "C10": ("v2-class", "v2-asm", "hybrid-class", "hybrid-asm")}
-E2E_CLI = {"C02": (2, 3), "C03": (3,), "C10": (2, 3)}
+E2E_CLI = {"C02": (2, 3, "2-align", "3-align"), "C03": (3, "3-align", "3-config"),
+           "C10": (2, 3, "2-align", "3-align", "2-config", "3-config")}
+
+
+def cli_case(i):
+    """which trees also go through the command line: a third of them, and the single files 6, 18, 30, ..."""
+    return i % 3 == 2 or i % 12 == 6
 CATEGORIES = {
     "C02": [("pieces root of", "v2-pieces-root"), ("empty file", "v2-empty-file-carries-root"),
             ("piece layers", "v2-piece-layers"), ("no top-level piece layers", "v2-piece-layers"),
@@ -1187,19 +1200,23 @@ def judge_e2e(prop, case):
         for kind_, ps in _categorise(prop, problems).items() if problems else ():
             out.append((kind_, inp, prop + " (reference hashing of the tree as it is on disk)", ps[:6]))
     if prop == "C10":
-        for x, y in C10_PAIRS:
-            a, b = case["metas"].get(x), case["metas"].get(y)
-            if isinstance(a, dict) and isinstance(b, dict):
+        # every metafile written for this state of the payload (plain, align option, re-assembled, command line) against the
+        # class-based creator of its flavour
+        for x, a in case["metas"].items():
+            y = flavour(x) + "-class"
+            b = case["metas"].get(y)
+            if x != y and isinstance(a, dict) and isinstance(b, dict):
                 ps = check_c10_pair(a, b)
                 if ps:
-                    out.append(("creators-differ-" + ("hybrid" if "hybrid" in y else "v2") + ("-cli" if "cli" in x else ""),
+                    out.append(("creators-differ-" + flavour(x) + ("-cli" if "cli" in x else ""),
                                 case_input(case, f"{x} vs {y}"), "identical info dictionaries and piece layers", ps))
+    if case.get("changed"):
+        out += judge_e2e(prop, case["changed"])
     return out
 
 
 def e2e(ctx, prop):
     """the creators of this property on generated content trees, judged against the reference oracle / each other"""
-    import shutil
     n = 24 if ctx.tier == "quick" else 1200
     if ctx.tier == "quick" and any(k.startswith("torrent.py") for k in ctx.extra.get("ast_changed_since_model", [])):
         n *= 3
@@ -1208,15 +1225,18 @@ def e2e(ctx, prop):
     with core.Scratch("v" + prop.lower() + "e_") as tmp:
         os.environ["HOME"] = tmp
         for i in range(n):
-            cli = E2E_CLI[prop] if i % 3 == 2 else ()
+            cli = E2E_CLI[prop] if cli_case(i) else ()
             case = build_case(tmp, salt, i, E2E_KINDS[prop], cli)
-            case["ast_changed"] = ctx.extra.get("ast_changed_since_model", [])
+            case["ast_changed"] = case["changed"]["ast_changed"] = ctx.extra.get("ast_changed_since_model", [])
             for c in sorted(case["classes"]):          # classes are counted once per content tree
                 ctx.classes[c] = ctx.classes.get(c, 0) + 1
-            for kind in case["metas"]:
-                inp = case_input(case, kind)
-                ctx.case(key=("e2e", i, kind, case["pl"], tuple(sorted(inp["tree"].items()))), classes=["creator: " + kind],
-                         nontrivial=bool(case["classes"]), sample=inp if i == 1 else None)
+            for c in sorted(case["changed"]["classes"]):
+                ctx.classes["after the payload changed: " + c] = ctx.classes.get("after the payload changed: " + c, 0) + 1
+            for cs in (case, case["changed"]):
+                for kind in cs["metas"]:
+                    inp = case_input(cs, kind)
+                    ctx.case(key=("e2e", i, kind, cs["pl"], tuple(sorted(inp["tree"].items()))), classes=["creator: " + kind],
+                             nontrivial=bool(cs["classes"]), sample=inp if i == 1 and kind == E2E_KINDS[prop][0] else None)
             for kind_, inp, exp, obs in judge_e2e(prop, case):
                 ctx.fail(kind_, inp, exp, obs)
             shutil.rmtree(os.path.join(tmp, f"c{i}"), ignore_errors=True)
